@@ -180,3 +180,14 @@ def unit_vector(ctx, dim):
     ctx.ensure("e1", ctx.And(ctx.shape_eq(e1, (dim, 1)), ctx.eq(e1, exp)))
     v = g(np.zeros((dim, 3)), add_nugget=False)
     ctx.ensure("vector-shape", ctx.shape_eq(v, (dim, 3)))
+
+
+# --- vector fields stored on meshes: one vector per node / cell, components in the requested axis order ------------
+from contracts.c11 import field_on_mesh, MESH_PARAMS     # noqa: E402
+
+contract(P, "SRF[VectorField].mesh[meshio]/stored-vectors=field-at-the-nodes-or-cell-centroids-in-the-requested-axis-order",
+         params=[p for p in MESH_PARAMS if p["gen"] == "VectorField"],
+         functions=["field/tools.py:generate_on_mesh", "field/tools.py:_get_select", "field/base.py:Field.mesh"],
+         bounded="native run: 8 nodes, 3 cell blocks of unequal size, 2-D incompressible field on a 2-D or 3-D mesh "
+                 "(divergence-freeness and mean of the generated field are the contracts above; here: the stored data ARE "
+                 "that field)")(field_on_mesh)
